@@ -454,7 +454,7 @@ func (s *state) formatRecursive(err error, isOutermost, withDetail, withDepth bo
 		// various interfaces first.
 		printDone := false
 		for _, fn := range specialCases {
-			if handled, desiredShortening := fn(err, (*safePrinter)(s), cause == nil /* leaf */); handled {
+			if handled, desiredShortening := fn(err, (*safePrinter)(s), cause == nil && len(causes) == 0 /* leaf */); handled {
 				printDone = true
 				bufIsRedactable = true
 				if desiredShortening == nil {
